@@ -17,6 +17,11 @@ import BklProofs.Lemmas.EscapeProc
 import BklProofs.Lemmas.C06Layered
 namespace Bkl
 
+-- BklProofs/C17.lean now imports BklProofs.Lemmas.ToolsCliProofs (tool-main theorems), which brings
+-- in the simp lemma `R_pure_eq` of Lemmas/Files.lean; it is switched off here so that the `simp`
+-- calls below behave exactly as before (several proofs end in `simp […]; rfl`).
+attribute [-simp] R_pure_eq
+
 /-! ## 1. unescaping undoes doubling -/
 
 theorem unescape_double (cs : List Char) : unescapeChars (doubleChars cs) = cs :=
